@@ -20,7 +20,9 @@ import (
 
 // c20Functions: fixed params 0..3 x variadic no/yes, namespaced.
 func c20Functions() map[string]schema.FunctionSignature {
-	p := func(n string) function.Parameter { return function.Parameter{Name: n, Type: cty.DynamicPseudoType, Description: "param " + n} }
+	p := func(n string) function.Parameter {
+		return function.Parameter{Name: n, Type: cty.DynamicPseudoType, Description: "param " + n}
+	}
 	v := &function.Parameter{Name: "rest", Type: cty.DynamicPseudoType}
 	return map[string]schema.FunctionSignature{
 		"f0":     {ReturnType: cty.String, Description: "f0"},
@@ -89,7 +91,8 @@ func c20Calls(depth int) []string {
 		out = append(out, level[d]...)
 	}
 	// layout variants of a few calls
-	out = append(out, "f2(\n  1,\n  2\n)", "v1( 1 , 2 , 3 )", "f3(f1(1), f2(1, f1(2)), 3)", "f2(1, f1(\"x\", \"y\"))", "f1(f2(1, 2, 3))", "unk(f2(1, 2))", "f2(unk(1, 2, 3), 2)", "f0(1)", "f1(f0())")
+	out = append(out, "f2(\n  1,\n  2\n)", "v1( 1 , 2 , 3 )", "f3(f1(1), f2(1, f1(2)), 3)", "f2(1, f1(\"x\", \"y\"))", "f1(f2(1, 2, 3))", "unk(f2(1, 2))", "f2(unk(1, 2, 3), 2)", "f0(1)", "f1(f0())",
+		"f2(1, )", "f3(1, 2, )", "f2(f2(1, ), 2)", "v1(f2(1, ), 2)", "f3([f2(1, )], 2, 3)", "v2(1, 2, 3, )", "f2(f3(1, 2, ), f1(1, ))", "f2( f1( 1 ) , )")
 	return out
 }
 
